@@ -209,12 +209,81 @@ def validate_traces(ctx, traces, label, dev=None, unspec=None):
 
 # ---------------------------------------------------------------------------------------------
 # code -> spec: real runs
+FORMS = ['float64', 'int64', 'int32', 'int16', 'uint8']     # representations of integral abscissae
+
+
+def make_pixel_problem(rng, k):
+    """Integer abscissae (pixel indices), handed over as float64 / int64 / int32 / int16 / uint8 arrays: the same
+    VALUES in another representation.  Orders 1..4, all breakpoint options, few or many pixels per interval."""
+    nord = rng.choice([1, 2, 3, 4, 4])
+    n0 = rng.randint(40, 200)
+    start = rng.choice([0, 0, 3, 17])
+    pix = list(range(start, start + n0))
+    if rng.random() < 0.5:                                  # irregular: some pixels missing (never two in a row)
+        drop = set()
+        for _ in range(rng.randint(1, max(1, n0 // 10))):
+            j = rng.randint(2, n0 - 3)
+            if not ({j - 1, j, j + 1} & drop):
+                drop.add(j)
+        pix = [q for i, q in enumerate(pix) if i not in drop]
+    xs = np.array(pix, dtype=float)
+    n = xs.size
+    u = (xs - xs[0]) / (xs[-1] - xs[0])
+    amp = rng.choice([1.0, 10.0])
+    sig = amp * rng.choice([0.02, 0.05, 0.1])
+    sigma = sig * np.array([rng.choice([0.5, 1.0, 1.0, 2.0]) for _ in range(n)])
+    if rng.random() < 0.5 and nord > 1:
+        f = amp * np.sin(xs / rng.uniform(5, 12) + rng.uniform(0, 6))
+    else:
+        cf = [rng.uniform(-3, 3) for _ in range(nord)]
+        f = amp * sum(cf[d] * u ** d for d in range(nord))
+    y = f + np.array([rng.gauss(0, 1) for _ in range(n)]) * sigma
+    w = 1.0 / sigma ** 2
+    for _ in range(rng.choice([0, 1, 2])):                  # something for the rejection to find
+        j = rng.randint(4, n - 5)
+        y[j] += rng.choice([-1, 1]) * rng.uniform(15, 40) * sigma[j]
+    zs = set()
+    for _ in range(rng.choice([0, 0, 1, 3])):
+        j = rng.randint(3, n - 4)
+        if all(abs(j - q) > 2 for q in zs):
+            zs.add(j)
+            w[j] = rng.choice([0.0, -1.0])
+    ngood = int((w > 0).sum())
+    opt = rng.choice(['bkspace', 'bkspace', 'nbkpts', 'everyn'])
+    per = rng.choice([5, 6, 8, 12, 25]) + (nord == 1) * 0   # pixels per breakpoint interval
+    if opt == 'bkspace':
+        kw = {'bkspace': float(rng.choice([per, per + 0.5, per * 1.3]))}
+    elif opt == 'nbkpts':
+        kw = {'nbkpts': max(2, int(round((xs[-1] - xs[0]) / per)) + 1)}
+    else:
+        cand = [ev for ev in range(max(3, per - 2), per + 6) if ngood // ev >= 3 and ngood % (ngood // ev - 1) != 0]
+        kw = {'everyn': rng.choice(cand)} if cand else {'bkspace': float(per)}
+    if nord == 1:
+        # piecewise constant: which interval owns a point ON a breakpoint is a convention (C08), so the breakpoints are
+        # kept off the pixels: nbkpts-1 coprime to the (integral) range
+        import math
+        rng_x = int(xs[-1] - xs[0])
+        nb = max(3, int(round(rng_x / per)) + 1)
+        while math.gcd(nb - 1, rng_x) != 1:
+            nb += 1
+        kw = {'nbkpts': nb} if opt != 'bkspace' else {'bkspace': float(rng_x / (nb - 1) * 0.9995)}
+    lower, upper = rng.choice([(5, 5), (5, 5), (3, 7), (7, 3), (4, 6)])
+    maxiter = rng.choice([0, 0, 1, 2, 10])
+    order = np.lexsort((y, xs))
+    forms = ['float64', 'int64', 'int32', 'int16' if (k % 2 or xs[-1] > 255) else 'uint8']
+    rng.shuffle(forms)
+    return {'X': xs[order], 'Y': y[order], 'W': w[order], 'nord': nord, 'kw': kw, 'lower': lower, 'upper': upper,
+            'maxiter': maxiter, 'outliers': [], 'id': k, 'forms': forms}
+
+
 def make_sparse_problem(rng, k):
     """Sparse / irregular sampling: breakpoint intervals holding exactly 1, 2 or 3 points (an isolated point among
     them) next to dense ones.  Every fit stays determined: sparse intervals are never neighbours, the end intervals
     are dense, non-positive weights only sit in dense intervals, so every basis function keeps data (status 0)."""
-    nord = rng.choice([2, 3, 4, 4])
+    nord = rng.choice([1, 2, 3, 4, 4, 4])
     opt = rng.choice(['nbkpts', 'nbkpts', 'bkspace', 'everyn'])
+    if nord == 1 and opt == 'everyn':
+        opt = 'nbkpts'
     x0 = rng.choice([0.0, -7.5, 120.0, 3600.0])
     amp = rng.choice([1.0, 30.0])
     sig = amp * rng.choice([0.01, 0.02, 0.05])
@@ -294,7 +363,7 @@ def make_sparse_problem(rng, k):
 
 def make_problem(rng, k, quick):
     """Seeded data set: smooth signal + noise, injected outliers, zero / negative weights; gap free."""
-    nord = rng.choice([2, 3, 4, 4])
+    nord = rng.choice([1, 2, 3, 4, 4, 4])
     nint = rng.choice([1, 2, 3, 4, 6])                     # breakpoint intervals
     per = rng.randint(30, 60)                              # points per interval
     n = max(60, min(400, nint * per + rng.randint(0, 7)))
@@ -344,8 +413,8 @@ def make_problem(rng, k, quick):
             zs.add(j)
             w[j] = rng.choice([0.0, 0.0, -1.0, -w[j]])
     opt = rng.choice(['nbkpts', 'nbkpts', 'bkspace', 'everyn'])
-    if opt == 'everyn' and nint < 2:                       # a single breakpoint is a degenerate knot set (C08)
-        opt = 'nbkpts'
+    if opt == 'everyn' and (nint < 2 or nord == 1):        # a single breakpoint is a degenerate knot set (C08); order 1
+        opt = 'nbkpts'                                     # with data ON the breakpoints is C08's interval convention
     ngood = int((w > 0).sum())
     if opt == 'nbkpts':
         kw = {'nbkpts': nint + 1}
@@ -380,14 +449,17 @@ def caller_orders(rng, n, count=4):
     return out[:count]
 
 
-def run_real(bsp, P, perm):
-    """One real iterfit run in caller order perm.  Returns dict(events, outmask, sset, exc, tb)."""
+def run_real(bsp, P, perm, form='float64'):
+    """One real iterfit run in caller order perm, abscissae handed over as dtype `form`.
+    Returns dict(events, outmask, sset, exc, tb, form)."""
     idx = np.array(perm, dtype=int) - 1
-    x, y, w = P['X'][idx].copy(), P['Y'][idx].copy(), P['W'][idx].copy()
+    x, y, w = P['X'][idx].astype(form), P['Y'][idx].copy(), P['W'][idx].copy()
+    if not np.array_equal(x.astype(float), P['X'][idx]):
+        raise core.MachineryError('abscissae are not representable as %s' % form)
     rec = Recorder(bsp)
     rec.rankof = {(a, b): r + 1 for r, (a, b) in enumerate(zip(P['X'].tolist(), P['Y'].tolist()))}
     rec.wof = {r + 1: v for r, v in enumerate(P['W'].tolist())}
-    res = {'events': rec.events, 'outmask': None, 'sset': None, 'exc': None, 'tb': ''}
+    res = {'events': rec.events, 'outmask': None, 'sset': None, 'exc': None, 'tb': '', 'form': form}
     with rec:
         try:
             sset, outmask = bsp.iterfit(x, y, invvar=w, nord=P['nord'], lower=P['lower'], upper=P['upper'],
@@ -397,7 +469,7 @@ def run_real(bsp, P, perm):
         except Exception as ex:
             res['exc'] = '%s: %s' % (type(ex).__name__, str(ex)[:160])
             res['tb'] = traceback.format_exc()
-    if not (np.array_equal(x, P['X'][idx]) and np.array_equal(y, P['Y'][idx]) and np.array_equal(w, P['W'][idx], equal_nan=True)):
+    if not (np.array_equal(x.astype(float), P['X'][idx]) and np.array_equal(y, P['Y'][idx]) and np.array_equal(w, P['W'][idx], equal_nan=True)):
         res['clobbered'] = True
     return res
 
@@ -428,6 +500,11 @@ def build_trace(P, perm, res, ref):
     sset = res['sset']
     if not np.all(sset.mask) or sset.nord != P['nord']:
         return None, 'breakpoints masked in the returned object', None
+    form = res.get('form', 'float64')
+    if sset.nord == 1:
+        inner = np.asarray(sset.breakpoints, dtype=float)[1:-1]
+        if np.isin(P['X'], inner).any():
+            return None, 'order 1 with a data point exactly on an interior breakpoint (which interval owns it is C08)', None
     solver = P.setdefault('_solver', {})
     key = (sset.breakpoints.tobytes(), sset.nord)
     if key not in solver:
@@ -453,12 +530,20 @@ def build_trace(P, perm, res, ref):
         return None, None, {'exception': 'outmask has shape %r dtype %s' % (outmask.shape, outmask.dtype)}
     xe = eval_points(P)
     xe = xe[(xe >= S.lo) & (xe <= S.hi)]
+    if sset.nord == 1:                                     # piecewise constant: not evaluated ON a breakpoint (see above)
+        xe = xe[~np.isin(xe, np.asarray(sset.breakpoints, dtype=float))]
     want = S.curve(last, xe) if last is not None else None
     if want is None:
         return None, 'independent solver: rank-deficient system for the last set fitted', None
     try:
         got = np.asarray(sset.value(xe)[0], dtype=float)
         cdiff = scaled(got - want, P)
+        if 'forms' in P:
+            # evaluation points given as an integer array (the good data abscissae in the run's representation)
+            xi = P['X'][P['W'] > 0]
+            xi = xi[(xi >= S.lo) & (xi <= S.hi)]
+            goti = np.asarray(sset.value(xi.astype(form))[0], dtype=float)
+            cdiff = max(cdiff, scaled(goti - S.curve(last, xi), P))
     except Exception:                                      # the returned object cannot be evaluated: no curve at all
         got = np.full(xe.shape, np.nan)
         cdiff = CLAMP
@@ -468,18 +553,19 @@ def build_trace(P, perm, res, ref):
             'pdiff': scaled(got - ref['got'], P) if ref and ref['got'].shape == got.shape else (CLAMP if ref else 0)}
     events.append(rete)
     tr = {'n': n, 'perm': list(perm), 'cpos': [c + 1 for c in range(n) if P['W'][perm[c] - 1] > 0],
-          'lower': int(round(P['lower'] * MICRO)), 'upper': int(round(P['upper'] * MICRO)), 'band': BAND,
+          'lower': int(round(P['lower'] * MICRO)), 'upper': int(round(P['upper'] * MICRO)),
+          'band': BAND,
           'maxiter': P['maxiter'], 'mingood': P['nord'], 'tol': TOL, 'outliers': P['outliers'], 'events': events}
-    info = {'pts': pts, 'curve': sorted(last) if last else [], 'got': got, 'cdiff': cdiff, 'nfit': sum(e['a'] == 'fit' for e in ev),
+    info = {'pts': pts, 'curve': sorted(last) if last else [], 'got': got, 'cdiff': cdiff, 'form': form, 'nfit': sum(e['a'] == 'fit' for e in ev),
             'clobbered': res.get('clobbered', False)}
     return tr, None, info
 
 
-def describe_problem(P, perm):
+def describe_problem(P, perm, form=None):
     kind = 'sorted' if perm == sorted(perm) else ('reversed' if perm == sorted(perm, reverse=True) else 'shuffled')
-    return 'n=%d nord=%d %s lower=%s upper=%s maxiter=%d outliers=%d nonpositive-weights=%d order=%s' % (
+    return 'n=%d nord=%d %s lower=%s upper=%s maxiter=%d outliers=%d nonpositive-weights=%d order=%s%s' % (
         P['X'].size, P['nord'], P['kw'], P['lower'], P['upper'], P['maxiter'], len(P['outliers']),
-        int((P['W'] <= 0).sum()), kind)
+        int((P['W'] <= 0).sum()), kind, (' x.dtype=' + form) if form else '')
 
 
 def short_events(events):
@@ -494,11 +580,13 @@ def short_events(events):
     return ' '.join(out)
 
 
-def case_of(P, perm, k=None, ref_perm=None):
+def case_of(P, perm, k=None, ref=None, form='float64'):
+    """ref = (caller order, representation) of the reference run of the same data, or None"""
     return {'kind': 'trace', 'problem': {'X': P['X'].tolist(), 'Y': P['Y'].tolist(), 'W': P['W'].tolist(), 'nord': P['nord'],
                                          'kw': P['kw'], 'lower': P['lower'], 'upper': P['upper'], 'maxiter': P['maxiter'],
-                                         'outliers': P['outliers'], 'id': P['id']},
-            'perm': list(perm), 'event': k, 'ref_perm': list(ref_perm) if ref_perm else None}
+                                         'outliers': P['outliers'], 'id': P['id'], 'pixel': 'forms' in P},
+            'perm': list(perm), 'event': k, 'form': form, 'ref_perm': list(ref[0]) if ref else None,
+            'ref_form': ref[1] if ref else None}
 
 
 def judge_batch(ctx, bsp, batch, label, stats):
@@ -537,38 +625,142 @@ def judge_batch(ctx, bsp, batch, label, stats):
                 brief = {'a': 'return', 'outmask': brief['outmask'], 'cdiff': e['cdiff'], 'pdiff': e['pdiff']}
             what = ('%srecorded run refused by Trace_IterFit at event %d %s after: %s [%s]' % (
                 '[deviation D-C10-1: loop stops after the first rejection] ' if dev else '', k, brief,
-                short_events(tr['events'][:k]) or 'nothing', describe_problem(P, perm)))
-            ctx.violation(dict(case_of(P, perm, k, refperm), what=what, deviation=dev), finding=dev)
+                short_events(tr['events'][:k]) or 'nothing', describe_problem(P, perm, info['form'])))
+            ctx.violation(dict(case_of(P, perm, k, refperm, info['form']), what=what, deviation=dev), finding=dev)
         elif info['clobbered']:
-            ctx.violation(dict(case_of(P, perm), what='iterfit modified its input arrays [%s]' % describe_problem(P, perm)))
+            ctx.violation(dict(case_of(P, perm, None, None, info['form']),
+                               what='iterfit modified its input arrays [%s]' % describe_problem(P, perm, info['form'])))
+        elif t not in unspec:
+            stats['accepted'].append(tr)
+
+
+def falsify(tr, kind, rng):
+    """A copy of an accepted trace with ONE observed field changed to something the real run did not produce.
+    Returns (trace, what) or None when this kind does not apply to the trace."""
+    t = dict(tr, events=[dict(e) for e in tr['events']])
+    ev = t['events']
+    n = t['n']
+    ret = ev[-1]
+    fits = [i for i, e in enumerate(ev) if e['a'] == 'fit']
+    rejs = [i for i, e in enumerate(ev) if e['a'] == 'reject']
+    if kind == 'mask_bit':                                 # one bit of the returned mask flipped
+        c = rng.randint(1, n)
+        ret['outmask'] = sorted(set(ret['outmask']) ^ {c})
+    elif kind == 'curve':                                  # returned curve beyond the tolerance
+        ret['cdiff'] = t['tol'] + 1 + rng.randint(0, 1000)
+    elif kind == 'status':                                 # a fit reports "breakpoints dropped"
+        ev[rng.choice(fits)]['st'] = -1
+    elif kind == 'fit_set':                                # a fit was handed one point less
+        e = ev[rng.choice(fits)]
+        if len(e['mask']) < 2:
+            return None
+        e['mask'] = sorted(set(e['mask']) - {rng.choice(e['mask'])})
+    elif kind == 'qdone':
+        if not rejs:
+            return None
+        e = ev[rng.choice(rejs)]
+        e['qd'] = not e['qd']
+    elif kind == 'reject_inlier':                          # a point well inside the limits is rejected as well
+        if not rejs:
+            return None
+        e = ev[rng.choice(rejs)]
+        lim = min(t['lower'], t['upper']) // 2
+        inl = [r for r in e['out'] if abs(e['z'][r - 1]) < lim]
+        if not inl:
+            return None
+        e['out'] = sorted(set(e['out']) - {rng.choice(inl)})
+    elif kind == 'keep_outlier':                           # a point far beyond the limits is kept
+        cand = [(i, r) for i in rejs for r in set(ev[i]['inm']) - set(ev[i]['out'])
+                if abs(ev[i]['z'][r - 1]) > 2 * max(t['lower'], t['upper'])]
+        if not cand:
+            return None
+        i, r = rng.choice(cand)
+        ev[i]['out'] = sorted(set(ev[i]['out']) | {r})
+    elif kind == 'other_order':                            # differs from the run of the same data in another order
+        if not ret['hasref']:
+            return None
+        ret['pdiff'] = t['tol'] + 1
+    elif kind == 'early_return':                           # the last refit and its rejection pass are missing
+        if len(fits) < 2:
+            return None
+        t['events'] = ev[:fits[-1]] + [ret]
+    else:
+        raise core.MachineryError('unknown falsification ' + kind)
+    return t
+
+
+FALSIFICATIONS = ['mask_bit', 'curve', 'status', 'fit_set', 'qdone', 'reject_inlier', 'keep_outlier', 'other_order',
+                  'early_return']
+
+
+def falsified_selftest(ctx, accepted, rng, count):
+    """Binding of the trace validation (the position-variable equivalent of core.binding_selftest): accepted recorded
+    runs with ONE observed field falsified must every one be refused by Trace_IterFit; an accepted one means the trace
+    specification constrains nothing there - a failure of the machinery (exit 2), never a verdict about pydl."""
+    if ctx.violations or ctx.known_hits:
+        return                                              # the code under test is already refused
+    if not accepted:
+        raise core.MachineryError('binding self-test of Trace_IterFit: no accepted recorded run to falsify')
+    pool = accepted[:]
+    rng.shuffle(pool)
+    fals, kinds = [], []
+    k = 0
+    for tr in pool:
+        if len(fals) >= count:
+            break
+        for shift in range(len(FALSIFICATIONS)):
+            kind = FALSIFICATIONS[(k + shift) % len(FALSIFICATIONS)]
+            f = falsify(tr, kind, rng)
+            if f is not None:
+                fals.append(f)
+                kinds.append(kind)
+                break
+        k += 1
+    bad = validate_traces(ctx, fals, 'Trace_IterFit[falsified]')
+    by = {}
+    for j, kind in enumerate(kinds):
+        d = by.setdefault(kind, {'falsified': 0, 'refused': 0})
+        d['falsified'] += 1
+        d['refused'] += int(j in bad)
+    ctx.cov['parts']['selftest_recorded_traces'] = {'corrupted_traces': len(fals), 'rejected': len(bad), 'by_kind': by}
+    missed = [j for j in range(len(fals)) if j not in bad]
+    if missed:
+        raise core.MachineryError('binding self-test of Trace_IterFit: %d of %d falsified runs were accepted, e.g. kind %s' % (
+            len(missed), len(fals), kinds[missed[0]]))
+    if len(by) < 6:
+        raise core.MachineryError('binding self-test of Trace_IterFit: only %d kinds of falsification applied' % len(by))
 
 
 def run_traces(ctx, bsp):
     rng = random.Random(ctx.seed)
-    nprob = 60 if ctx.quick else 900
+    nprob = 50 if ctx.quick else 700
     per_batch = 30 if ctx.quick else 60
-    stats = {'maxcdiff': 0, 'skipped': {}, 'runs': 0, 'refused': 0}
+    stats = {'maxcdiff': 0, 'skipped': {}, 'runs': 0, 'refused': 0, 'accepted': [], 'forms': {}}
     batch = []
     done = 0
     for k in range(nprob):
-        P = make_sparse_problem(rng, k) if k % 5 in (1, 3) else make_problem(rng, k, ctx.quick)
+        P = (make_pixel_problem(rng, k) if k % 10 in (2, 5, 8) else
+             make_sparse_problem(rng, k) if k % 10 in (1, 3, 6, 9) else make_problem(rng, k, ctx.quick))
         ref = refperm = None
         for j, perm in enumerate(caller_orders(rng, P['X'].size)):
-            res = run_real(bsp, P, perm)
+            form = P['forms'][j] if 'forms' in P else 'float64'
+            res = run_real(bsp, P, perm, form)
             stats['runs'] += 1
+            stats['forms'][form] = stats['forms'].get(form, 0) + 1
             tr, skip, info = build_trace(P, perm, res, ref)
             if skip:
                 stats['skipped'][skip.split(':')[0]] = stats['skipped'].get(skip.split(':')[0], 0) + 1
                 continue
             if tr is None:
                 ctx.validated()
-                ctx.violation(dict(case_of(P, perm), what='iterfit [%s]: %s' % (describe_problem(P, perm), info['exception'])))
+                ctx.violation(dict(case_of(P, perm, None, None, form),
+                                   what='iterfit [%s]: %s' % (describe_problem(P, perm, form), info['exception'])))
                 continue
             batch.append((P, perm, res, tr, info, refperm))
             if ref is None:
-                ref, refperm = info, perm
+                ref, refperm = info, (perm, form)
             if k == 0 and j == 0:
-                ctx.sample({'recorded_run': describe_problem(P, perm), 'events': short_events(tr['events']),
+                ctx.sample({'recorded_run': describe_problem(P, perm, form), 'events': short_events(tr['events']),
                             'curve_vs_independent_fit_microsigma': info['cdiff']})
         P.pop('_solver', None)
         if len(batch) >= per_batch * 4 or k == nprob - 1:
@@ -586,7 +778,8 @@ def run_traces(ctx, bsp):
         print('  (%d recorded runs refused in all, %d of them not explained by deviation D-C10-1; the first %d of either '
               'kind are reported)' % (stats['refused'], stats.get('refused_None', 0), MAXREPORT), flush=True)
     ctx.sample({'recorded_runs': stats['runs'], 'validated': done, 'refused': stats['refused'], 'out_of_domain_skipped': stats['skipped'],
-                'max_curve_discrepancy_microsigma': stats['maxcdiff']}, limit=12)
+                'abscissa_representations': stats['forms'], 'max_curve_discrepancy_microsigma': stats['maxcdiff']}, limit=12)
+    falsified_selftest(ctx, stats['accepted'], random.Random(ctx.seed + 1), 120 if ctx.quick else 300)
     return stats
 
 
@@ -618,8 +811,9 @@ def concretise(st):
             'maxiter': p['maxiter'], 'script': script, 'nrej': sum(e['a'] == 'reject' for e in hist)}
 
 
-def run_scripted(bsp, c):
-    """Real iterfit + real djs_reject; bspline.fit answers from the behaviour's oracle."""
+def run_scripted(bsp, c, form='float64'):
+    """Real iterfit + real djs_reject; bspline.fit answers from the behaviour's oracle.  The abscissae (ranks, integral)
+    are handed over in the representation `form`."""
     n = c['n']
     calls = []
 
@@ -645,7 +839,7 @@ def run_scripted(bsp, c):
     obs = {'exc': None}
     with rec:
         try:
-            sset, outmask = bsp.iterfit(c['x'].copy(), c['y'].copy(), invvar=c['w'].copy(), nord=2, nbkpts=2,
+            sset, outmask = bsp.iterfit(c['x'].astype(form), c['y'].copy(), invvar=c['w'].copy(), nord=2, nbkpts=2,
                                         lower=c['lower'], upper=c['upper'], maxiter=c['maxiter'])
             outmask = np.asarray(outmask)
             obs['outmask'] = [i + 1 for i in range(n) if outmask.shape == (n,) and outmask[i]]
@@ -743,9 +937,19 @@ def run_mc(ctx, bsp, cfg, need=(), sample_every=1):
         if sample_every > 1 and (nd * 2654435761 + ctx.seed) % sample_every:
             continue
         c = concretise(st)
-        obs = run_scripted(bsp, c)
+        # the abscissae of a behaviour are integral: every behaviour is run in one representation (rotating), every
+        # 7th (thorough: 21st) in all of them; TLC's outcome is for the values, whatever the dtype
+        form = FORMS[nd % len(FORMS)]
+        obs = run_scripted(bsp, c, form)
         ctx.evaluated(1, 'replayed-behaviours')
         ctx.validated()
+        if nd % (7 if ctx.quick else 21) == 0:
+            for other in FORMS:
+                if other != form:
+                    o2 = run_scripted(bsp, c, other)
+                    ctx.evaluated(1, 'replayed-other-representation')
+                    if compare(st, c, o2) and not compare(st, c, obs):
+                        obs, form = o2, other
         nf = len(c['script'])
         kinds[(min(nf, 3), any(e['st'] == -1 for e in c['script']))] = 1
         if nf >= 2:
@@ -762,9 +966,9 @@ def run_mc(ctx, bsp, cfg, need=(), sample_every=1):
             nclass[dev] = nclass.get(dev, 0) + 1
             if nclass[dev] <= MAXREPORT:
                 ps = plain_state(st)
-                ctx.violation({'what': '%sTLC behaviour replayed on iterfit: %s [%s]' % (
-                    '[deviation D-C10-1: loop stops after the first rejection] ' if dev else '', bad, describe_state(ps)),
-                    'kind': 'behaviour', 'state': ps, 'mismatch': bad, 'deviation': dev}, finding=dev)
+                ctx.violation({'what': '%sTLC behaviour replayed on iterfit (x.dtype=%s): %s [%s]' % (
+                    '[deviation D-C10-1: loop stops after the first rejection] ' if dev else '', form, bad, describe_state(ps)),
+                    'kind': 'behaviour', 'state': ps, 'mismatch': bad, 'deviation': dev, 'form': form}, finding=dev)
     if n != r['distinct']:
         raise core.MachineryError('read %d of %d states from the dump' % (n, r['distinct']))
     if nviol > MAXREPORT:
@@ -823,6 +1027,14 @@ def run(ctx):
                        '(intervals holding exactly 1, 2 or 3 points next to dense ones, isolated points, everyn 2..4) with every fit '
                        'still determined; runs in which a fit reports a non-zero '
                        'status or raises from maskpoints are outside C10 (C09) and are counted as skipped, not judged',
+                       'integral abscissae (pixel indices; the ranks of every replayed TLC behaviour) are handed over as float64 / '
+                       'int64 / int32 / int16 / uint8 arrays and the returned curve is also evaluated at integer-typed points: '
+                       'the dtype is a representation, the expected outcome is the one for the values',
+                       'orders 1..4; for order 1 (piecewise constant) no data or evaluation point sits exactly ON an interior '
+                       'breakpoint (which interval owns it is the interval convention of C08)',
+                       'outside the statement (a data SET with at least as many positively weighted points as the order is '
+                       'presupposed): 0-d x (IndexError), empty x (ValueError "No valid data points": a proper refusal), '
+                       'length-1 x (no breakpoint option can span a zero range; returns the scalar True or raises)',
                        'maxiter = 0: the mask may or may not carry the rejections of the single pass (statement leaves it open)',
                        'fewer positively weighted points than the spline order: outside the statement (pc = "unspec")',
                        'replayed behaviours use nord=2, nbkpts=2; bspline.fit is the oracle there, djs_reject and iterfit are real',
@@ -851,7 +1063,7 @@ def replay(ctx, case):
     if case.get('kind') == 'behaviour':
         st = state_from_plain(case['state'])
         c = concretise(st)
-        obs = run_scripted(bsp, c)
+        obs = run_scripted(bsp, c, case.get('form') or 'float64')
         bad = compare(st, c, obs)
         ctx.evaluated(1)
         print('behaviour:', describe_state(case['state']))
@@ -865,14 +1077,18 @@ def replay(ctx, case):
     P = dict(q, X=np.array(q['X']), Y=np.array(q['Y']), W=np.array(q['W']))
     perm = case['perm']
     ref = None
+    form = case.get('form') or 'float64'
+    if q.get('pixel'):
+        P['forms'] = [form]
     if case.get('ref_perm'):
-        ref = build_trace(P, case['ref_perm'], run_real(bsp, P, case['ref_perm']), None)[2]
+        rf = case.get('ref_form') or 'float64'
+        ref = build_trace(P, case['ref_perm'], run_real(bsp, P, case['ref_perm'], rf), None)[2]
         if ref is not None and 'exception' in ref:
             ref = None
-    res = run_real(bsp, P, perm)
+    res = run_real(bsp, P, perm, form)
     tr, skip, info = build_trace(P, perm, res, ref)
     ctx.evaluated(1)
-    print('recorded run:', describe_problem(P, perm))
+    print('recorded run:', describe_problem(P, perm, form))
     if skip:
         print('outside the domain of C10 now:', skip)
         return
